@@ -27,6 +27,7 @@ ENTRY = dict(
         'translator tools/gen/vector.go: Consolidate batchSize, initialize useTempVectors, Query probe count',
         'B-tree stores are modelled as finite maps with the documented Add/Upsert/UpdateKey/Remove semantics of /repo/btree (unique keys, Upsert replaces key and value)',
     ],
+    search_rounds=1,
     assumptions=[
         'one process, no concurrent writers on the domain, Optimize runs to completion (no crash between its phases)',
         'payloads are JSON objects that unmarshal (the harness uses {"p": n})',
